@@ -12,7 +12,7 @@ RUST_P = {"slice8": ("&%s[u8]", True), "slice64": ("&%s[f64]", True), "str8": ("
 JS_ARG = {"slice8": "[1, 2, 3]", "slice64": "[1.5, 2.5]", "str8": '"h\\u00e9llo"', "str16": '"h\\u00e9"', "strs": '["ab", "c"]',
           "st": "new Sl({s: [1, 2], n: 3})", "opt": "7", "pl": "new Pl({a: 1, b: 2})", "prim": "5"}
 RUST_R = {"unit": "", "prim": " -> u32", "hold": " -> Box<Hold<'a>>", "out": " -> Pl", "result": " -> Result<u32, Er>", "opt": " -> Option<u16>",
-          "write": "", "reshold": " -> Result<Box<Hold<'a>>, Er>"}
+          "write": "", "reshold": " -> Result<Box<Hold<'a>>, Er>", "box": " -> Box<Opq>", "optbox": " -> Option<Box<Opq>>", "ref": " -> &'a Opq"}
 PRELUDE = """    #[diplomat::opaque]
     pub struct Opq(u8);
     #[diplomat::opaque]
@@ -40,15 +40,16 @@ export default new Proxy(base, { get(t, prop) { if (prop in t) return t[prop]; r
   const nums = args.map(a => typeof a === "number" ? Math.trunc(a) : (typeof a === "bigint" ? Number(a) : -1));
   log.push({ev: "Wasm", fn: String(prop), args: nums, nonnum: args.filter(a => typeof a !== "number" && typeof a !== "bigint").length});
   // the receive buffer (when the shape has one) is the first argument: zero it and set the is_ok flag in its last byte
-  if (ctl.recvSize && typeof args[0] === "number") { const m = new Uint8Array(memory.buffer); m.fill(0, args[0], args[0] + ctl.recvSize); if (ctl.ok) m[args[0] + ctl.recvSize - 1] = 1; }
+  if (String(prop).endsWith("_destroy")) { log.pop(); log.push({ev: "Destroy", ptr: nums[0]}); return undefined; }
+  if (ctl.recvSize && typeof args[0] === "number") { const m = new Uint8Array(memory.buffer); m.fill(0, args[0], args[0] + ctl.recvSize); if (ctl.ok) { m[args[0] + ctl.recvSize - 1] = 1; if (ctl.recvSize >= 5) new DataView(memory.buffer).setUint32(args[0], 0x7000, true); } }
   log.push({ev: "WasmRet"});
-  return ctl.ok ? 1 : 0; }; } });
+  return ctl.ok ? 0x7000 : 0; }; } });
 '''
 
 DRIVER_HEAD = r'''
 const regs = [];
 let log;
-class StubFR { constructor(cb) { this.cb = cb; } register(target, held) { const buf = typeof held === "function"; regs.push({reg: this, held, ref: new WeakRef(target), buf}); if (buf) log.push({ev: "Register"}); } unregister() {} }
+class StubFR { constructor(cb) { this.cb = cb; } register(target, held) { const buf = typeof held === "function"; regs.push({reg: this, held, ref: new WeakRef(target), buf}); if (buf) log.push({ev: "Register"}); else log.push({ev: "RegisterOpaque", ptr: held}); } unregister() {} }
 globalThis.FinalizationRegistry = StubFR;
 const stub = await import("./diplomat-wasm.mjs");
 log = stub.log; const ctl = stub.ctl;
@@ -73,6 +74,7 @@ async function run(id, ok, recvSize, f) {
   }
   res = null;
   log.push({ev: "DropResult"});
+  for (const r of regs) if (!r.buf) r.reg.cb(r.held);
   for (const r of regs) if (r.buf) { log.push({ev: "Finalize"}); try { r.reg.cb(r.held); } catch (e) { log.push({ev: "Note", err: "finalizer: " + String(e).slice(0, 140)}); log.push({ev: "FinalizerThrew"}); } }
   log.push({ev: "Quiesce"});
   appendFileSync(outPath, log.map(e => JSON.stringify(Object.assign({run: id}, e))).join("\n") + "\n");
@@ -81,10 +83,10 @@ async function run(id, ok, recvSize, f) {
 
 
 def method_src(n, c):
-    lt = "'a " if c["borrow"] else ""
+    lt = "'a " if (c["borrow"] or c["ret"] == "ref") else ""
     ps = []
     if c["self"] == "ref":
-        ps.append("&self")
+        ps.append("&'a self" if c["ret"] == "ref" else "&self")
     for i, k in enumerate(c["params"]):
         t, can = RUST_P[k]
         b = (i + 1) in c["borrow"]
@@ -93,7 +95,7 @@ def method_src(n, c):
         ps.append("p%d: %s" % (i, t))
     if c["ret"] == "write":
         ps.append("w: &mut DiplomatWrite")
-    gen = "<'a>" if c["borrow"] else ""
+    gen = "<'a>" if (c["borrow"] or c["ret"] == "ref") else ""
     return "        pub fn m%d%s(%s)%s { unimplemented!() }\n" % (n, gen, ", ".join(ps), RUST_R[c["ret"]])
 
 
@@ -185,7 +187,8 @@ def run(out):
         by_run.setdefault(ev["run"], []).append(ev)
     acc = [n for n in by_run if n not in refused]
     kinds = set(ev["ev"] for n in acc for ev in by_run[n])
-    need = {"Alloc", "Free", "WriteCreate", "WriteDestroy", "Register", "Wasm", "WasmRet", "MethodEnd", "GcProbe", "DropResult", "Finalize", "Quiesce"}
+    need = {"Alloc", "Free", "WriteCreate", "WriteDestroy", "Register", "Wasm", "WasmRet", "MethodEnd", "GcProbe", "DropResult", "Finalize", "Quiesce",
+            "RegisterOpaque", "Destroy"}
     if not need <= kinds:
         raise lib.ToolError("accepted runs never exercise %s" % sorted(need - kinds))
     if not any(ev["ev"] == "GcProbe" and ev["alive"] > 0 for n in acc for ev in by_run[n]) or not any(ev["ev"] == "MethodEnd" and ev["threw"] for n in acc for ev in by_run[n]):
@@ -199,6 +202,8 @@ def run(out):
     muts["free of a borrowed buffer before the result is dropped"] = [ev for j, ev in enumerate(evs) if j != i][:next(j for j, ev in enumerate(evs) if ev["ev"] == "MethodEnd")] + [evs[i]] + \
         [ev for j, ev in enumerate(evs) if j != i][next(j for j, ev in enumerate(evs) if ev["ev"] == "MethodEnd"):]
     muts["registration dropped"] = [ev for ev in evs if ev["ev"] != "Register"]
+    muts["destroy registration dropped"] = [ev for ev in evs if ev["ev"] != "RegisterOpaque"]
+    muts["destroyed twice"] = evs[:-1] + [ev for ev in evs if ev["ev"] == "Destroy"] + evs[-1:]
     muts["address not passed"] = [dict(ev, args=[0 for _ in ev["args"]]) if ev["ev"] == "Wasm" else ev for ev in evs]
     caught = []
     for name, m in muts.items():
@@ -218,7 +223,7 @@ def run(out):
         ev = b["ev"]
         why = classify(b)
         diffs.append({"what": why, "shape": shape(c), "case": c, "refused_event": {k: v for k, v in ev.items() if k != "run"},
-                      "state": {k: b[k] for k in ("phase", "nheap", "nplan", "regs", "want_regs", "next", "live")}})
+                      "state": {k: b[k] for k in ("phase", "nheap", "nplan", "regs", "want_regs", "oreg", "want_oreg", "next", "live")}})
     out.update({"cases": nrun, "shapes_in_scope": len(allc), "runs_refused": len(bad), "events": len(events),
                 "tlc": {"states": r0.distinct, "props": "NoEarlyFree, BorrowedOutlivesResult, CallScopedGoneAtReturn, NoLeak, GcHasOwner, deadlock freedom",
                         "negative_models_refuted": 1},
@@ -242,7 +247,13 @@ def classify(b):
         if b["nheap"] < b["nplan"]:
             return "the wasm export is called before every planned buffer was made"
         return "the wasm export is not given the address of a buffer made for it"
+    if ev["ev"] == "RegisterOpaque":
+        return "an opaque that is not handed out as owned is registered for destruction (or registered twice / with another address)"
+    if ev["ev"] == "Destroy":
+        return "the destroy finalizer runs for an address that was not registered, or twice"
     if ev["ev"] == "MethodEnd":
+        if ph != "marshal" and b["oreg"] != b["want_oreg"]:
+            return "an owned opaque handed back to JS is not registered with its destroy finalizer (never destroyed)"
         if ph == "marshal":
             return "the method throws while marshalling its arguments (buffers made so far are never released)"
         if b["regs"] != b["want_regs"]:
